@@ -13,8 +13,9 @@ from props import c36 as _c36
 ID = "C37"
 LEAN_TARGETS = ["TornadoModel.C37.Props"]
 _T = "TornadoModel.C37."
-THEOREMS = [_T + n for n in ["fast_path_eq", "result_settled_once", "moment_yields_one_iteration"]]
-GOALS = ["runner_refines_native_goal"]   # tie only
+THEOREMS = [_T + n for n in ["fast_path_eq", "result_settled_once", "moment_yields_one_iteration",
+                             "runner_refines_native", "runner_refines_native_flat", "runner_native_prefix"]]
+GOALS = []   # no principal theorem is left tie-only
 TRUSTED = [
     "asyncio Future/loop/Task abstraction of C36/Model.lean + C37/Spec.lean (Native.*): first Task step by call_soon, "
     "`await fut` does not suspend when fut is done, sleep(0) reschedules by call_soon (tied step by step on every run)",
@@ -40,8 +41,11 @@ RULE = ("programs of depth <=3 (quick) / <=4 (thorough) over <=3 futures x {resu
 EXHAUSTIVE = {"quick": False, "thorough": False}
 CLAUSES = {
     "same result or exception and same sequence of side effects as the equivalent async def coroutine, "
-    "for every completion order": "tie only (runner_refines_native_goal): both real forms vs each other, vs their "
-                                  "timed machines step by step, and vs the untimed meaning `canon`",
+    "for every completion order": "runner_refines_native (every generator, every schedule, full fragment incl. "
+                                  "lists/dicts via multi; runner_refines_native_flat = the goal as first stated), "
+                                  "runner_native_prefix (mid-run: one log is a prefix of the other, both prefixes "
+                                  "of `canon`); the tie checks both real forms vs each other, vs their timed "
+                                  "machines step by step, and vs `canon`",
     "result future settled once, generator never resumed afterwards": "result_settled_once",
     "decorator fast path = Runner.run's first send(None)": "fast_path_eq",
     "yield moment/None = one loop iteration": "moment_yields_one_iteration",
